@@ -4,7 +4,7 @@ import struct
 from common import hexs
 from gens.rtmpenc import ChunkWriter, S, Num, Obj, NULL, amf, command
 from gens.chunk import rand_part
-from gens.server import CLOCKS, KEYS, APPS, md_text
+from gens.server import CLOCKS, KEYS, APPS, md_text, odd_value
 
 
 class Script:
@@ -114,6 +114,9 @@ class Script:
         else:
             props = Obj([("width", Num(1280)), ("height", Num(720.9)), ("framerate", Num(r.choice([30, 29.97, 1e300]))), ("stereo", ("B", False)),
                          ("encoder", S("x")), ("audiochannels", Num(-1))][:r.range(0, 6)])
+            if not self.clean and r.chance(1, 3):
+                props = Obj([(k, odd_value(r) if r.chance(1, 2) else v) for k, v in props[1]] +
+                            [(r.choice(["videocodecid", "audiocodecid"]), odd_value(r))])
             vals = r.choice([[S("onMetaData"), props], [S("onMetaData")], [S("onMetaData"), S("no")], [S("other"), props], [], [Num(1)]])
             if self.clean:
                 vals = [S("onMetaData"), props]
